@@ -61,7 +61,83 @@ def gen(chk, binary, tier):
         d.append(sc)
     cc.refine_scripts(binary, d, [["G", "G", "L"], ["L", "G", "g"]], rng)
     streams.append(("repeated-identical-set", d))
+    # (e) expiries of 2^62 ns and more: 2*E does not fit an int64 (D12: `past < 2*expire` classified every result older
+    #     than E as rotted). Only E in (2^62, 2^62+2^61) lets NewCache start (its ticker period 4E wraps to 4(E-2^62) > 0);
+    #     E-2^62 is chosen large so that the wrapped sweep period is longer than the script. Probes around u+E only
+    #     (u+2E is beyond the clock's range).
+    e_ = []
+    for _ in range(40 if quick else 400):
+        r = rng.choice([2 ** 60, 2 ** 59, 3 * 2 ** 59])
+        ne = 2 ** 62 + r
+        ee = rng.choice([ne, ne, 2 ** 62 + 2 ** 58, 1600, 16000])
+        nkeys = rng.choice([1, 2])
+        sc = cc.Script(ne, ee, rng.choice([1, 2]), cc.BIG_JCS, cc.pick_keys(rng, nkeys), cc.rand_ld(rng, 1600, nkeys))
+        used = set()
+        for _i in range(rng.range(1, 4)):
+            t = cc.free_instant(used, 16 * rng.below(64))
+            k = rng.below(nkeys)
+            if rng.chance(1, 3):
+                sc.add(t, "S", k, 5000000 + len(sc.acts), rng.choice([0, 0, 3]))
+            else:
+                sc.add(t, "L", k)
+        sc.meta["end"] = 2 ** 62 + 2 ** 61 + 2 ** 59
+        sc.meta["wd"] = sc.meta["end"] + 1000000
+        e_.append(sc)
+    cc.refine_scripts(binary, e_, [["G", "G", "L", "g"], ["L", "G", "W"]], rng, adder=cc.add_first_boundary_probes)
+    streams.append(("expiry-beyond-2^62", e_))
     return streams
+
+
+def status_int64_stream(chk, binary):
+    """Direct differential of getFutureStatus's int64 arithmetic (cmd/ftcache c05st / c05new under faketime: the
+    back-dated age is exact) against models/CacheStatus64.v (cst_code CstFixed = Cache.v's c_status_fut by
+    cache_status_is_int64_exact), with the property's own case table as the independent monitor."""
+    rng = chk.rng
+    M = 2 ** 63 - 1
+    exps = [1, 2, 1000, 10 ** 9, 2 ** 31, 2 ** 40, 2 ** 61 - 1, 2 ** 61, 2 ** 62 - 1, 2 ** 62, 2 ** 62 + 1,
+            2 ** 62 + 2 ** 60, 2 ** 62 + 2 ** 61 - 1, 2 ** 62 + 2 ** 61, M - 1, M]
+    exps += [rng.range(1, M) for _ in range(12)] + [2 ** rng.range(1, 62) + rng.range(-3, 3) for _ in range(12)]
+    lines = []
+    for E in exps:
+        if E <= 0:
+            continue
+        pasts = set([0, 1, E - 1, E, E + 1, 2 * E - 1, 2 * E, 2 * E + 1, M, M - 1, E + (M - E) // 2, rng.range(0, M)])
+        for past in sorted(p for p in pasts if 0 <= p <= M):
+            err = rng.below(2)
+            ne, ee = (E, min(E, rng.choice([1, E, max(1, E // 3)]))) if not err else (rng.choice([E, M, min(M, E + 12345)]), E)
+            lines.append("c05st %d %d %d %d" % (ne, ee, err, past))
+    news = ["c05new %d" % e for e in [1, 250000, 2 ** 61 - 1, 2 ** 61, 2 ** 61 + 1, 2 ** 62 - 1, 2 ** 62, 2 ** 62 + 250000,
+                                     2 ** 62 + 2 ** 60, 2 ** 62 + 2 ** 61 - 1, 2 ** 62 + 2 ** 61, M]]
+    lines += news
+    mo = common.run_model(lines)
+    io = []
+    for i in range(0, len(lines), 200):
+        io += common.run_impl(binary, lines[i:i + 200], env=cc.FT_ENV, timeout=300)
+    canary = common.run_model([l.replace("c05st ", "c05sto ", 1) for l in lines if l.startswith("c05st ")])
+    ncan = 0
+    for l, m, r in zip(lines, mo, io):
+        t = l.split()
+        big = t[0] == "c05new" or int(t[2 if t[3] == "1" else 1]) >= 2 ** 62
+        chk.count_case("status-int64", l, big or True)
+        chk.cov["disagreements_checked"] += 1
+        if t[0] == "c05st":
+            E = int(t[2]) if t[3] == "1" else int(t[1])
+            past = int(t[4])
+            want = "st=good" if past < E else ("st=expired" if past < 2 * E else "st=rotted")
+            if r != want:
+                chk.monitor_fail("status-case-table", l, r, "a result aged %d ns with expiry E=%d ns (%s) must be %s, the code treats it as %s" % (
+                    past, E, "now-u < E" if past < E else ("E <= now-u < 2E" if past < 2 * E else "now-u >= 2E"), want[3:], r[3:]))
+        if m != r:
+            chk.diverge("status-int64", l, m, r, "int64 status arithmetic differs from models/CacheStatus64.v")
+        else:
+            chk.cov["traces_validated_against_impl"] += 1
+    for l, r, c in zip([l for l in lines if l.startswith("c05st ")], io, canary):
+        if c != r:
+            ncan += 1
+    chk.cov["canary_status_orig_disagreements"] = ncan
+    if ncan == 0:
+        chk.infra_errors.append("status-int64 canary: the pinned comparison past < 2*expire is indistinguishable from the code on this stream")
+    chk.sample(dict(stream="status-int64", case=lines[0], model=mo[0], impl=io[0]), limit=12)
 
 
 def run(chk):
@@ -76,7 +152,7 @@ def run(chk):
                        "class of every returned Future, job created <=> loader invocation, pair and virtual resolution instant of every Get. "
                        "Probes are placed by re-running the script and adding calls at u+E-1,u+E,u+E+1,u+2E-1,u+2E,u+2E+1 of observed completions u. "
                        "non-trivial = at least one call exactly at such a boundary; distinct = distinct script line")
-    chk.run_proof_gate(cc.PROOFS)
+    chk.run_proof_gate(cc.PROOFS + ["models/CacheStatus64.v", "proofs/CacheStatus64Proofs.v"])
     try:
         # step-level stream of C04 (cooperative scheduler on the cachex hooks): the part with clock ticks inside the
         # calls and the regression schedules, with the C05 monitor "Get2 (nil, nil) while the key is servable"
@@ -87,6 +163,7 @@ def run(chk):
     binary = cc.build_ft(chk)
     if binary:
         try:
+            status_int64_stream(chk, binary)
             corpus = [cc.parse_line(l) for l in pure.corpus_cases("C05")]
             cc.check_batch(chk, binary, "corpus", corpus, cc.monitor_c05, nontrivial=nontrivial)
             hits = {}
